@@ -248,6 +248,8 @@ def build_payload(it, version):
     if op == "locate":
         return enums.Operation.LOCATE, payloads.LocateRequestPayload(
             maximum_items=it["max"], offset_items=it["offset"],
+            storage_status_mask=it.get("ssm"),
+            object_group_member=None if it.get("ogm") is None else enums.ObjectGroupMember(it["ogm"]),
             attributes=[build_attribute(a) for a in it["attrs"]])
     if op == "get":
         w = it["wrap"]
@@ -352,7 +354,16 @@ def build_payload(it, version):
 
 def build_request(req):
     v = req["version"]
+    auth = None
+    if req.get("cred") is not None:
+        # the optional Authentication of the request header: a Username and Password credential naming SOMEBODY ELSE
+        # than the certificate does (the server's identity comes from the certificate and the directory alone)
+        cv = cobjects.UsernamePasswordCredential(username=req["cred"]["u"], password=req["cred"].get("p"))
+        auth = contents.Authentication(credentials=[cobjects.Credential(
+            credential_type=enums.CredentialType.USERNAME_AND_PASSWORD, credential_value=cv)])
     hdr = messages.RequestHeader(
+        authentication=auth,
+        batch_order_option=None if req.get("border") is None else contents.BatchOrderOption(req["border"]),
         protocol_version=version_obj(v),
         maximum_response_size=None if req.get("maxsize") is None else contents.MaximumResponseSize(req["maxsize"]),
         asynchronous_indicator=None if req.get("async") is None else contents.AsynchronousIndicator(req["async"]),
